@@ -275,16 +275,21 @@ PROPS = {
         claim="c02_render_total: TogNMINotifications succeeds on every tree of the guard gn_treeb (keyed Go-map lists of every key kind, containers, leaves, non-empty leaf-lists) under any prefix that "
               "repeats no key name; c02_notifs_are_leaves (no guard, ordered lists included): the notifications are exactly the leaves of the tree, one update per leaf, plus one atomic notification per "
               "ordered-list group; c02_roundtrip_partial: applying them (prefix stripped, or pfx = []: c02_roundtrip_noprefix_partial) with UnmarshalNotifications to an empty root gives back exactly the "
-              "tree (tree equality, induction over arbitrary trees); c02_scalar_guard_simple: the per-leaf guard follows from typing for every non-union type.",
+              "tree (tree equality, induction over arbitrary trees); c02_scalar_guard_simple: the per-leaf guard follows from typing for every non-union type. "
+              "c02_render_total_ordered / c02_roundtrip_ordered: the same totality and exact round trip (order of ordered-list entries included, any prefix) for every tree of gn_treeb_ord, which adds "
+              "`ordered-by user` lists in the OpenConfig shape `container xs { list x }` (compressed code: DeleteNode of the atomic prefix resolves to exactly that ordered-map field; uncompressed "
+              "code: the list is the only field set in its container), any number of them, outside other ordered lists, keys of StringToType kinds; c02_guard_extends: gn_treeb implies gn_treeb_ord. "
+              "The gnmirt stream evaluates the guard on every generated tree and, where it holds, the theorem's conclusion with the model (Corr/GnmiOrdCorr.v).",
         note="Trusted: Coq kernel; hand transcriptions of ygot/render.go (findUpdatedLeaves, TogNMINotifications) and ytypes/gnmi.go, node.go tied by the 'gnmirt' stream (every tree is rendered, "
              "unmarshalled into an empty root and compared, on all seven packages) and by 'nodeops'/'setreq'; float and key oracle tables from the harness.",
-        coq_files=["Tree/KeyCodec", "Tree/Leaves", "Tree/Notif", "Tree/Node", "Tree/SetReq", "Tree/KeyCodecProofs", "Tree/NodeStepProofs", "Tree/GnmiRt", "Tree/GnmiRtProofs", "Tree/GnmiExample", "Corr/GnmiCorr"],
+        coq_files=["Tree/KeyCodec", "Tree/Leaves", "Tree/Notif", "Tree/Node", "Tree/SetReq", "Tree/KeyCodecProofs", "Tree/NodeStepProofs", "Tree/GnmiRt", "Tree/GnmiRtProofs", "Tree/GnmiRtOrd",
+                   "Tree/GnmiRtOrdProofs", "Tree/GnmiExample", "Corr/GnmiCorr", "Corr/GnmiOrdCorr"],
         streams=[dict(name="gnmirt", n=N(700, 6000))],
         signatures=["gnmi/"],
         trusted=["schema translator and tree printer (tree.go)", "float and key oracle tables produced by the harness"],
-        partial="The round trip is proved for trees without ordered-by-user lists (gn_node accepts SList false only); with an ordered list that has a sibling the statement is false of the code "
-                "(c02_refuted_atomic_wipes, known finding), the OpenConfig shape (list alone in its container) is only computed (c02_ordered_openconfig_shape); unkeyed lists are rejected by "
-                "TogNMINotifications (c02_refuted_unkeyed, known finding); union leaves need the canonical alternative (tv_rtb).",
+        partial="Ordered lists are covered only in the OpenConfig shape (gn_treeb_ord / ord_field_okb); an ordered list with a sibling in its container is wiped by the atomic delete "
+                "(c02_refuted_atomic_wipes, known finding); an ordered list directly in a list entry or the root (uncompressed), and decimal64/binary/multi-type-union ordered keys, are outside the "
+                "guard; unkeyed lists are rejected by TogNMINotifications (c02_refuted_unkeyed, known finding); union leaves need the canonical alternative (tv_rtb).",
     ),
     "C03": dict(
         level="proof",
